@@ -7,7 +7,7 @@ import operator
 from petl.compat import next, text_type
 
 
-from petl.comparison import comparable_itemgetter
+from petl.comparison import comparable_itemgetter, Comparable
 from petl.util.base import Table, rowgetter, values, itervalues, \
     header, data, asindices
 from petl.transform.sorts import sort
@@ -537,7 +537,8 @@ def iterpivot(source, f1, f2, f3, aggfun, missing):
     # first pass - collect fields
     f2vals = set(itervalues(source, f2))  # TODO only make one pass
     f2vals = list(f2vals)
-    f2vals.sort()
+    # N.B., values of mixed types (or None) cannot be sorted natively
+    f2vals.sort(key=Comparable)
     outhdr = [f1]
     outhdr.extend(f2vals)
     yield tuple(outhdr)
